@@ -328,7 +328,30 @@ func (pm *ProtocolManager) rcvBlockLoop() {
 func (pm *ProtocolManager) insertBlock(b *types.Block) error {
 	// pop the confirms which arrived before block
 	pm.mergeConfirmsFromCache(b)
-	return pm.chain.InsertBlock(b)
+	err := pm.chain.InsertBlock(b)
+	if err != nil && len(b.Confirms) > 0 && pm.chain.HasBlock(b.Hash()) {
+		// another copy of this block was inserted first: keep the confirms this copy carried
+		go pm.chain.InsertConfirms(b.Height(), b.Hash(), b.Confirms)
+	}
+	// confirms which arrived while the block was being inserted
+	pm.insertConfirmsFromCache(b.Height(), b.Hash())
+	return err
+}
+
+// insertConfirmsFromCache hands the cached confirms of a block that is in the chain to the chain
+func (pm *ProtocolManager) insertConfirmsFromCache(height uint32, hash common.Hash) {
+	if !pm.chain.HasBlock(hash) {
+		return
+	}
+	late := pm.confirmsCache.Pop(height, hash)
+	if len(late) == 0 {
+		return
+	}
+	sigs := make([]types.SignData, 0, len(late))
+	for _, confirm := range late {
+		sigs = append(sigs, confirm.SignInfo)
+	}
+	go pm.chain.InsertConfirms(height, hash, sigs)
 }
 
 // stableBlockLoop block has been stable
@@ -940,6 +963,8 @@ func (pm *ProtocolManager) handleConfirmMsg(msg *p2p.Msg) error {
 		go pm.chain.InsertConfirms(confirm.Height, confirm.Hash, []types.SignData{confirm.SignInfo})
 	} else {
 		pm.confirmsCache.Push(confirm)
+		// the block may have become visible between the test above and the push
+		pm.insertConfirmsFromCache(confirm.Height, confirm.Hash)
 		if pm.confirmsCache.Size() > 100 {
 			log.Debugf("confirmsCache's size: %d", pm.confirmsCache.Size())
 		}
